@@ -193,7 +193,7 @@ def standin(tier, seed):
     # ---- totality: _parse_header, parse_cookie, split_host_and_port
     HA = list("ab=;\"\\ '*%,:/\t-_1\x00\xe9é") + ["utf-8''", "*0*", "*1", "%C3%A9", "%zz", "\\\""]
     corner_h = ["", ";", ";;", "=", "a;=", "a; b", 'a; b="', 'a; b="\\', "a; b*=", "a; b*=''", "a; b*=x'y'%ff", "a; b*0=1; b*2=3", "a; b*0*=utf-8''%E4; b*1*=%zz", 'a; b="c;d"; e="f\\";g"', "a; " + "b=" * 3000,
-                "a; b*=nosuch''x", "a; b*=utf-8'", "a;b\x00=c", "a; B=1; b=2", ";a=b", "a; b*" + "9" * 5000 + "=x", "a; b*" + "9" * 5000 + "*=utf-8''x", 'a; n="x\\\\"; f="y"']
+                "a; b*=nosuch''x", "a; b*=utf-8'", "a;b\x00=c", "a; B=1; b=2", ";a=b", "a; b*" + "9" * 5000 + "=x", "a; b*" + "9" * 5000 + "*=utf-8''x", 'a; n="x\\\\"; f="y"', "a; b*=x; b*1=y", "a; b*0=x; b*=y", 'form-data; name*="na"; name*1="me*"', "a; b*=x; b*1*=%41; b*0=z"]
     for s in corner_h + [rnd(HA) for _ in range(N)]:
         evals += 1
         try:
